@@ -3275,6 +3275,10 @@ class quantized_hswish(quantized_bits):  # pylint: disable=invalid-name
     """Add relu_shift and relu_upper_bound to the config file."""
 
     base_config = super(quantized_hswish, self).get_config()
+    # Drop the quantized_bits options that quantized_hswish.__init__ does not
+    # accept, so that from_config(get_config()) works.
+    base_config.pop("keep_negative", None)
+    base_config.pop("post_training_scale", None)
 
     config = {
         "relu_shift": self.relu_shift,
